@@ -5,6 +5,7 @@ import KadDHT.Driver.C19
 import KadDHT.Driver.C07
 import KadDHT.Driver.C09
 import KadDHT.Driver.C09v
+import KadDHT.Driver.C10
 open KadDHT.Driver
 
 def main (args : List String) : IO UInt32 := do
@@ -12,6 +13,7 @@ def main (args : List String) : IO UInt32 := do
   | ["C18"] => runPure C18.handle; return 0
   | ["C18v"] => runPure C18v.handle; return 0
   | ["C19"] => runLoop C19.step {}; return 0
+  | ["C10"] => runPure C10.handle; return 0
   | ["C09v"] => runLoop C09v.step {}; return 0
   | ["C09"] => runLoop C09.step ({}, {}); return 0
   | ["C07"] => runLoop C07.step (KadDHT.ProviderStore.init 1 0); return 0
